@@ -17,3 +17,10 @@ Proof.
   destruct cores_are_the_source as (A & B & C & _ & _ & D). repeat split; assumption.
 Qed.
 Print Assumptions C02_cores_are_the_source.
+
+(** The executable oracle applied to implementation dumps decides exactly the stated well-formedness
+    (range, inverse / involution laws, the mirror clause of glued faces, removed darts free). *)
+From HC Require Import Map3.Wf3 Map3.Wf3Dec.
+Theorem C02_oracle_wf3 `{Sig} : forall n s, wf3b n s = true <-> 0 < n /\ wf3 n s.
+Proof. exact wf3b_spec. Qed.
+Print Assumptions C02_oracle_wf3.
